@@ -17,13 +17,13 @@ func TestC18(t *testing.T) {
 	defer r.Finish(t)
 	var targets []Target
 	targets = append(targets, ParrotTargets(true)...)
-	for i := 0; i < mon.Pick(30, 600); i++ {
+	for i := 0; i < mon.Pick(90, 600); i++ {
 		targets = append(targets, RandomizedTarget(i))
 	}
-	for i := 0; i < mon.Pick(40, 1000); i++ {
+	for i := 0; i < mon.Pick(120, 1000); i++ {
 		targets = append(targets, CustomTarget(i))
 	}
-	conns := mon.Pick(12, 200)
+	conns := mon.Pick(32, 200)
 	var mu sync.Mutex
 	seenKey := map[string]string{}
 	seenRandom := map[string]string{}
@@ -137,7 +137,7 @@ func TestC18(t *testing.T) {
 		}
 	})
 	// (3) QUIC: empty legacy session id
-	for i := 0; i < mon.Pick(100, 3000); i++ {
+	for i := 0; i < mon.Pick(400, 3000); i++ {
 		rg := Sub("C18quic", i)
 		spec, _ := GenSpec(rg, GenOpts{QUIC: true, ForHandshake: true})
 		cfg := &tls.Config{ServerName: "example.test", MinVersion: tls.VersionTLS13, NextProtos: []string{"h3"}}
